@@ -4,6 +4,7 @@ package govc
 
 import (
 	"sort"
+	"strconv"
 
 	"golang.org/x/tools/go/ssa"
 )
@@ -106,7 +107,7 @@ func buildVGraph(fn *ssa.Function, c *Contract) *vgraph {
 	loops := findLoops(fn)
 	for _, li := range loops {
 		if c != nil {
-			li.spec = c.Loops[li.ordinal]
+			li.spec = c.Loops[strconv.Itoa(li.ordinal)]
 		}
 	}
 	inner := func(b *ssa.BasicBlock) *loopInfo { // innermost loop containing b
